@@ -180,7 +180,7 @@ def run_mc_walk(pid, scn, gh_exe, timeout=3600, heap="6g"):
     return res
 
 
-def record_traces(pid, scn, gh_exe, seed, histories, steps, nmax, families=None, tag="trace"):
+def record_traces(pid, scn, gh_exe, seed, histories, steps, nmax, families=None, tag="trace", dense=()):
     """Run the recorder for each family of the scenario's group; returns list of trace paths."""
     d = os.path.join(vf.RUN, pid, scn.name + "-" + tag)
     vf.fresh_dir(d)
@@ -188,7 +188,7 @@ def record_traces(pid, scn, gh_exe, seed, histories, steps, nmax, families=None,
     fams = families if families is not None else range(N_FAMILIES[scn.group])
     for fam in fams:
         plan = {"group": scn.group, "family_index": fam, "seed": int(seed) * 1000 + fam, "histories": histories,
-                "steps": steps, "nmax": nmax, "big_every": 4, "ops": scn.ops, "labels": sorted(set(list(scn.labels) + [0, 1, 2, 3])) if scn.kind == "labeled" else list(scn.labels),
+                "steps": steps, "nmax": nmax, "big_every": 4, "dense": list(dense) if fam in (0, 4) else [], "ops": scn.ops, "labels": sorted(set(list(scn.labels) + [0, 1, 2, 3])) if scn.kind == "labeled" else list(scn.labels),
                 # recorded executions also use values far outside the exhaustive alphabets
                 "mults": list(scn.mults) + ([3] if fam % 2 else [3, 255, 256, 70000]), "weights": [-1, 0, 2, 3] + ([1, 4, 5] if fam % 2 else [1000000, -70000]),
                 "forces": list(scn.forces),
@@ -219,7 +219,7 @@ def validate_trace(pid, scn, trace_path, check_obs=True, timeout=1800, tag="v"):
     d = os.path.join(vf.RUN, pid, scn.name + "-" + tag + "-" + os.path.basename(trace_path))
     vf.fresh_dir(d)
     consts = scn.constants(emit=False)
-    consts["MaxN"] = "= 64"
+    consts["MaxN"] = "= 4096"
     consts["MaxCopies"] = "= 1000"
     consts["MaxMult"] = "= 1000000"
     consts["CheckObs"] = "= " + ("TRUE" if check_obs else "FALSE")
